@@ -19,8 +19,11 @@ CORPUS = {
     "dec": [("1.5", 1.5), ("-0.25", -0.25), ("10.0", 10.0)],
     "bool": [("true", True), ("True", True), ("FALSE", False)],
     "null": [("null", None)],
-    "dq": [('"abc"', "abc"), ('"a b c"', "a b c"), ('"it\'s k=v, x in y; z"', "it's k=v, x in y; z")],
-    "sq": [("'abc'", "abc"), ("'say \"hi\" k=v'", 'say "hi" k=v'), ("'a, b; c in d'", "a, b; c in d")],
+    "dq": [('"abc"', "abc"), ('"a b c"', "a b c"), ('"it\'s k=v, x in y; z"', "it's k=v, x in y; z"),
+           ('"say \'x\'"', "say 'x'"), ('"\'lead\' and tail"', "'lead' and tail")],
+    "sq": [("'abc'", "abc"), ("'say \"hi\" k=v'", 'say "hi" k=v'), ("'a, b; c in d'", "a, b; c in d"),
+           # the other kind of quote right inside the enclosing one
+           ("'echo \"hi\"'", 'echo "hi"'), ("'\"lead\" and tail'", '"lead" and tail')],
     "json": [("'{\"a\": 1}'", {"a": 1}), ("'{\"Name\": \"Bob\", \"n\": [1, 2]}'", {"Name": "Bob", "n": [1, 2]}),
              ('\'{"k": "<% ctx().x %>"}\'', {"k": "<% ctx().x %>"})],
     "yaql": [("<% ctx(x) %>", "<% ctx(x) %>"), ("<% ctx().x + 1 %>", "<% ctx().x + 1 %>")],
@@ -56,11 +59,11 @@ def write_corpus(path):
 def enumerate_cases(workdir, max_len=2):
     cpath = os.path.join(workdir, "corpus.json")
     write_corpus(cpath)
-    cfg = os.path.join(tlc.SPEC_DIR, "Params_%d.cfg" % os.getpid())
+    cfg = os.path.join(workdir, "Params_%d.cfg" % os.getpid())       # (absolute path: nothing is written into spec/)
     with open(cfg, "w") as f:
         f.write("SPECIFICATION Spec\nCONSTANTS\n  MaxLen = %d\nINVARIANT Emit\nCHECK_DEADLOCK FALSE\n" % max_len)
     try:
-        res = tlc.run("Params", cfg=os.path.basename(cfg), env={"CORPUS_FILE": cpath}, workers=16, timeout=900, workdir=workdir)
+        res = tlc.run("Params", cfg=cfg, env={"CORPUS_FILE": cpath}, workers=16, timeout=900, workdir=workdir)
     finally:
         os.unlink(cfg)
     cases = []
